@@ -487,6 +487,7 @@ func init() {
 	Generators["C07F"] = func(t *rapid.T, tier string) any {
 		k := gen.DefaultKnobs()
 		k.PKept = 25
+		k.PWeirdAccount = 2
 		k.PWorldFallback = 45
 		k.PSave = 3
 		k.PCall = 2
@@ -718,6 +719,13 @@ func checkC07Free(c any) *ev.Verdict {
 	outcomeLabel(b.real, v)
 	if b.real.Panic != "" || b.real.ParseErrors > 0 {
 		v.Skipped = "panic or parse error"
+		return v
+	}
+	if b.m.Err != nil && b.m.Err.Class == model.EInvalidAccountName {
+		v.Label("invalid-account-name")
+		if b.real.ErrClass != model.EInvalidAccountName {
+			return v.Failf("invalid-account", "an account variable holds a text that is not an account name (%s) but execution gives %s", b.m.Err.Msg, b.real.Summary())
+		}
 		return v
 	}
 	if !b.agree() || b.m.Err != nil {
